@@ -8,7 +8,7 @@ from vlib import common, lanes, netlist, ref2, specmv
 
 LEVEL = 'model_checking'
 ASSUME = [
-    'default simulator options (no c_reuse, no strip_forks: every line owns its memory)',
+    'default simulator options for the whole corpus; the hand-made shapes additionally under c_reuse / strip_forks (with stripped forks only stems are evaluated, a stem injection reaches all its branches)',
     'circuit structure concrete (G2 shapes, G1 subset, seeded G3); stimuli and injected values fully symbolic (all planes, all lanes)',
     'oracle: ref2 / spec4 / spec8 of the circuit in which the injected line is cut and driven by the injected variables',
     'call trace (who is called, in which order, with which Line) does not depend on signal data: established on one concrete run per (circuit, m)',
@@ -22,9 +22,11 @@ def corpus(tier, seed):
     for j, nl in enumerate(nls):
         style = ('verilog', 'bench', 'lean')[j % 3]
         nlines = len(netlist.build(nl, style).lines) + 1
+        optl = [(False, False)] + ([(True, False), (False, True), (True, True)] if j < len(netlist.g2_shapes()) and j % 2 == 0 else [])      # every second hand-made shape also under the performance options
         for m in (2, 4, 8):
-            for ch in range(0, nlines, 10):
-                items.append((('nl', nl.to_json(), style), m, ch))
+            for opts in optl:
+                for ch in range(0, nlines, 10):
+                    items.append((('nl', nl.to_json(), style), m, ch, opts))
     return items
 
 
@@ -47,10 +49,10 @@ def _bad_lanes(m, alg, out_planes, spec, O):
     return alg.n(alg.same((out_planes[0], out_planes[1], out_planes[2]), spec))
 
 
-def trace_check(recipe, m):
+def trace_check(recipe, m, opts=(False, False)):
     """concrete run with a recording callback -> list of problems"""
     c = netlist.from_recipe(recipe)
-    s = LogicSim(c, 8, m=m)
+    s = LogicSim(c, 8, m=m, c_reuse=opts[0], strip_forks=opts[1])
     rng = np.random.default_rng(1)
     s.s[0] = rng.integers(0, 256, s.s[0].shape, dtype=np.uint8)
     calls = []
@@ -63,13 +65,13 @@ def trace_check(recipe, m):
         if line is not e: probs.append(f'call {k}: got {line!r} expected line {e.index}'); break
         if not isinstance(view, np.ndarray) or view.shape != (s.mdim, s.c.shape[-1]): probs.append(f'call {k}: view shape {getattr(view, "shape", None)}'); break
         if not np.shares_memory(view, s.c): probs.append(f'call {k}: values are not a view of the signal memory'); break
-        if not np.array_equal(snap, s.c[s.c_locs[e.index]]): probs.append(f'call {k}: values passed are not the freshly computed values of line {e.index}'); break
+        if not opts[0] and not np.array_equal(snap, s.c[s.c_locs[e.index]]): probs.append(f'call {k}: values passed are not the freshly computed values of line {e.index}'); break
     return probs, len(exp)
 
 
-def run_injected(c, m, sims, target, Z=None):
+def run_injected(c, m, sims, target, Z=None, opts=(False, False)):
     """symbolic run with injection at line index `target` (None: untouched callback). -> sim, ins, inj planes"""
-    s = LogicSim(c, sims, m=m)
+    s = LogicSim(c, sims, m=m, c_reuse=opts[0], strip_forks=opts[1])
     ins = lanes.symbolize(s)
     nbytes = s.c.shape[-1]
     inj = {(p, b): z3.BitVec(f'j_p{p}_b{b}', 8) for p in range(s.mdim) for b in range(nbytes)}
@@ -85,9 +87,9 @@ def run_injected(c, m, sims, target, Z=None):
     return s, ins, inj, seen
 
 
-def concrete(recipe, m, sims, target, in_bytes, inj_bytes):
+def concrete(recipe, m, sims, target, in_bytes, inj_bytes, opts=(False, False)):
     c = netlist.from_recipe(recipe)
-    s = LogicSim(c, sims, m=m)
+    s = LogicSim(c, sims, m=m, c_reuse=opts[0], strip_forks=opts[1])
     for (i, p, b), v in in_bytes.items(): s.s[0, i, p, b] = v
     nbytes = s.c.shape[-1]
 
@@ -110,29 +112,29 @@ def concrete(recipe, m, sims, target, in_bytes, inj_bytes):
 
 
 def check_item(item):
-    recipe, m, ch = item
+    recipe, m, ch, opts = item
     rep = common.Report()
     name = recipe[1]['name']
     sims = 3
     try:
-        probs, ncalls = trace_check(recipe, m) if ch == 0 else ([], 0)
+        probs, ncalls = trace_check(recipe, m, opts) if ch == 0 else ([], 0)
     except Exception as e:
-        rep.violation('callback-arguments', f'{name} m={m}: c_prop(inject_cb) raised {type(e).__name__}: {e}', {'recipe': recipe, 'm': m, 'mode': 'trace'})
+        rep.violation('callback-arguments', f'{name} m={m} options {opts}: c_prop(inject_cb) raised {type(e).__name__}: {e}', {'recipe': recipe, 'm': m, 'mode': 'trace', 'opts': list(opts)})
         return rep
     rep.counts['trace_runs'] += (ch == 0)
     rep.counts['callback_calls'] += ncalls
     if probs:
-        rep.violation('callback-arguments', f'{name} m={m}: {probs[0]}', {'recipe': recipe, 'm': m, 'mode': 'trace'})
+        rep.violation('callback-arguments', f'{name} m={m} options (c_reuse, strip_forks)={opts}: {probs[0]}', {'recipe': recipe, 'm': m, 'mode': 'trace', 'opts': list(opts)})
         return rep
     c = netlist.from_recipe(recipe)
     targets = ([None] + [l.index for l in c.lines])[ch:ch + 10]
     # reference run without any callback (for "untouched changes nothing")
-    s0 = LogicSim(c, sims, m=m)
+    s0 = LogicSim(c, sims, m=m, c_reuse=opts[0], strip_forks=opts[1])
     ins0 = lanes.symbolize(s0)
     lanes.simulate(s0)
     for target in targets:
         try:
-            s, ins, inj, seen = run_injected(c, m, sims, target)
+            s, ins, inj, seen = run_injected(c, m, sims, target, opts=opts)
         except Exception as e:
             rep.error(f'{name} m={m} target={target}: symbolic run raised {type(e).__name__}: {e}')
             continue
@@ -164,7 +166,7 @@ def check_item(item):
             mdl = q.model()
             mb = lanes.model_bytes(mdl, ins)
             ib = {k: mdl.eval(v, model_completion=True).as_long() for k, v in inj.items()}
-            data = {'recipe': recipe, 'm': m, 'mode': 'inject', 'sims': sims, 'target': target, 'in_bytes': [[list(k), v] for k, v in mb.items() if v],
+            data = {'recipe': recipe, 'm': m, 'mode': 'inject', 'sims': sims, 'target': target, 'opts': list(opts), 'in_bytes': [[list(k), v] for k, v in mb.items() if v],
                     'inj_bytes': [[list(k), v] for k, v in ib.items()]}
             ok, what = replay(data)
             if ok: rep.violation(f'inject/{name}/m{m}', what, data)
@@ -178,7 +180,7 @@ def check_item(item):
 def replay(data):
     if data['mode'] == 'trace':
         try:
-            probs, _ = trace_check(data['recipe'], data['m'])
+            probs, _ = trace_check(data['recipe'], data['m'], tuple(data.get('opts', (False, False))))
         except Exception as e:
             return True, f'c_prop(inject_cb) raised {type(e).__name__}: {e}'
         return bool(probs), str(probs[:1])
@@ -188,13 +190,14 @@ def replay(data):
         c = netlist.from_recipe(data['recipe'])
         res = []
         for cb in (None, lambda l, v: None):
-            s = LogicSim(c, data['sims'], m=data['m'])
+            o_ = tuple(data.get('opts', (False, False)))
+            s = LogicSim(c, data['sims'], m=data['m'], c_reuse=o_[0], strip_forks=o_[1])
             for (i, p, b), v in in_bytes.items(): s.s[0, i, p, b] = v
             s.s_to_c(); s.c_prop(cb) if cb else s.c_prop(); s.c_to_s()
             res.append(s.s[1].copy())
         diff = not np.array_equal(res[0], res[1])
         return diff, 'untouched callback changes the results' if diff else 'no difference'
-    bad = concrete(data['recipe'], data['m'], data['sims'], data['target'], in_bytes, {tuple(k): v for k, v in data['inj_bytes']})
+    bad = concrete(data['recipe'], data['m'], data['sims'], data['target'], in_bytes, {tuple(k): v for k, v in data['inj_bytes']}, tuple(data.get('opts', (False, False))))
     return bool(bad), f'injection at line {data["target"]}: (node, byte, simulated planes, expected)={bad[:1]}'
 
 
